@@ -321,6 +321,18 @@ def run(chk):
                     and close(k2.average_min_distance, sc * sc * k1.average_min_distance, rtol=ktol, atol=ktol)
                     and np.array_equal(k2.predict(f(Xk)), k1.predict(Xk))):
                 chk.fail("k-means centroids do not follow a rotation + uniform scaling + translation of the data", {"X": hexlist(Xk), "init": hexlist(init), "scale": sc})
+            # initial centroids given as an INTEGER array (rounded values) with real-valued data: trained like the same values as floats
+            try:
+                init_i = np.rint(np.asarray(init) * 4).astype(np.int64)
+                Xi4 = np.asarray(Xk) * 4.0
+                ki_, ni_, _ = kt.run_kfit(init_i, Xi4, None, cap=3)
+                kf_, nf_, _ = kt.run_kfit(init_i.astype(float), Xi4, None, cap=3)
+                chk.count(1, key=("kmeans, integer-typed start",))
+                if not (ni_ == nf_ and close(ki_.centroids_, kf_.centroids_, rtol=1e-10)):
+                    chk.fail("k-means started from integer-typed centroids %s does not train like the same start given as floats (centroids %s vs %s)"
+                             % (init_i.tolist(), np.asarray(ki_.centroids_).tolist(), np.asarray(kf_.centroids_).tolist()), {"X": hexlist(Xi4), "init_int": init_i.tolist()})
+            except Exception as e:
+                chk.fail("k-means with an integer-typed initial centroid array raises %r" % (e,), {"X": hexlist(Xk)})
             # the same k-means OBJECT re-used for the transformed data (new explicit start assigned): as a fresh object - nothing in the old units survives
             try:
                 kr_ = KMeansMachine(n_clusters=len(init), init_method=np.array(init), max_iter=3, convergence_threshold=None)
